@@ -98,6 +98,50 @@ theorem validate_entry_no_panic_partial (env : VEnv) (hwf : EnvWF env) (hst : St
     | none => rw [he] at hs; cases hs
     | some r => rfl
 
+/-- **no panic, no hang on guarded schemas**: for a ranked, closed environment (`Go.ranked`: the rank certificate of
+    "recursion only through instance-descending keywords"; `Go.closed`: complete resolution tables), every schema of the
+    store, ANY Go representation `g` of a well-formed instance `j`, and fuel `(depth j + 1) * (maxRank env + 1)`, the
+    evaluator neither panics nor runs out of fuel.  No hypothesis on the Spec is left (`C01.spec_defined` discharges it). -/
+theorem validate_no_panic_ranked (env : VEnv) (hwf : EnvWF env) (hst : StoreWF env.st)
+    (hr : ranked env = true) (hc : closed env = true) (fuel : Nat) (stack : List NodeId)
+    (hstack : ∀ x, x ∈ stack → (env.info? x).isSome = true) (s : NodeId) (hs : s < env.st.size) (g : GoVal) (j : Json)
+    (hg : GoVal.denote g = some j) (hj : Json.WF j = true)
+    (hf : (Json.depth j + 1) * (maxRank env + 1) ≤ fuel) :
+    Go.validateFuel env fuel stack g s ≠ .panic ∧ Go.validateFuel env fuel stack g s ≠ .fuel :=
+  validate_no_panic_partial env hwf hst fuel stack hstack s g j hg hj (C01.spec_defined env hr hc fuel stack s j hs hf)
+
+/-- the same with the cycle search `guarded` as the hypothesis, and the bound that only mentions the size of the store -/
+theorem validate_no_panic_of_guarded (env : VEnv) (hwf : EnvWF env) (hst : StoreWF env.st)
+    (hg : guarded env = true) (hc : closed env = true) (fuel : Nat) (stack : List NodeId)
+    (hstack : ∀ x, x ∈ stack → (env.info? x).isSome = true) (s : NodeId) (hs : s < env.st.size) (g : GoVal) (j : Json)
+    (hg' : GoVal.denote g = some j) (hj : Json.WF j = true)
+    (hf : (Json.depth j + 1) * (env.st.size + 2) ≤ fuel) :
+    Go.validateFuel env fuel stack g s ≠ .panic ∧ Go.validateFuel env fuel stack g s ≠ .fuel :=
+  validate_no_panic_partial env hwf hst fuel stack hstack s g j hg' hj
+    (C01.spec_defined_size env ((C01.guarded_iff_ranked env hc).1 hg) hc fuel stack s j hs hf)
+
+/-- with the bound that only mentions the size of the store -/
+theorem validate_no_panic_ranked_size (env : VEnv) (hwf : EnvWF env) (hst : StoreWF env.st)
+    (hr : ranked env = true) (hc : closed env = true) (fuel : Nat) (stack : List NodeId)
+    (hstack : ∀ x, x ∈ stack → (env.info? x).isSome = true) (s : NodeId) (hs : s < env.st.size) (g : GoVal) (j : Json)
+    (hg : GoVal.denote g = some j) (hj : Json.WF j = true)
+    (hf : (Json.depth j + 1) * (env.st.size + 2) ≤ fuel) :
+    Go.validateFuel env fuel stack g s ≠ .panic ∧ Go.validateFuel env fuel stack g s ≠ .fuel :=
+  validate_no_panic_partial env hwf hst fuel stack hstack s g j hg hj
+    (C01.spec_defined_size env hr hc fuel stack s j hs hf)
+
+/-- at the entry point -/
+theorem validate_entry_no_panic_ranked (env : VEnv) (hwf : EnvWF env) (hst : StoreWF env.st)
+    (hr : ranked env = true) (hc : closed env = true) (supported : List String)
+    (fuel : Nat) (root : NodeId) (rn : Node) (hroot : env.st.get? root = some rn) (g : GoVal) (j : Json)
+    (hg : GoVal.denote g = some j) (hj : Json.WF j = true)
+    (hf : (Json.depth j + 1) * (maxRank env + 1) ≤ fuel) :
+    Go.validate env supported fuel root g ≠ .panic ∧ Go.validate env supported fuel root g ≠ .fuel := by
+  apply validate_entry_no_panic_partial env hwf hst supported fuel root rn hroot g j hg hj
+  obtain ⟨b, hb⟩ := C01.valid_defined env hr hc fuel root j (Array.getElem?_eq_some_iff.1 hroot).1 hf
+  rw [hb]
+  rfl
+
 /-! ## applyDefaults -/
 
 /-- every schema object has an info record (`EnvWF.info_total`) and the `properties` children exist ⇒ no panic -/
@@ -175,5 +219,11 @@ example : Go.validateFuel C01.exEnv 3 [] (GoVal.ofJson C01.exGood) 0 ≠ .panic 
     Go.validateFuel C01.exEnv 3 [] (GoVal.ofJson C01.exGood) 0 ≠ .fuel :=
   validate_no_panic_partial C01.exEnv C01.exEnv_wf C01.exEnv_store 3 [] (fun _ h => nomatch h) 0 _ C01.exGood
     (denote_ofJson _) (by decide) (by decide)
+
+/-- `validate_no_panic_ranked` on the recursive list schema of C01: nothing about the Spec is assumed -/
+example : Go.validateFuel C01.listEnv 8 [] (GoVal.ofJson C01.listBad) 0 ≠ .panic ∧
+    Go.validateFuel C01.listEnv 8 [] (GoVal.ofJson C01.listBad) 0 ≠ .fuel :=
+  validate_no_panic_ranked C01.listEnv C01.listEnv_wf C01.listEnv_store (by decide) (by decide) 8 []
+    (fun _ h => nomatch h) 0 (by decide) _ C01.listBad (denote_ofJson _) (by decide) (by decide)
 
 end JSV.C10
